@@ -96,7 +96,10 @@ def write_cif(atoms, label_differs=False) -> str:
 
 def write_pdb(atoms) -> str:
     out = []
-    models = sorted({a["model"] for a in atoms})
+    models = []
+    for a in atoms:
+        if a["model"] not in models:
+            models.append(a["model"])  # file order, as listed
     for m in models:
         if len(models) > 1:
             out.append(f"MODEL     {m:4d}")
@@ -274,12 +277,17 @@ def gen_structure(rng: random.Random):
     if nm > 1:
         feats.add(f"models={nm}")
         allm = []
-        for m in range(1, nm + 1):
+        # model numbers need not start at 1 nor come in lexicographic order (a sub-ensemble 9, 10; 2 before 1)
+        numbering = rng.choice(["1..n", "1..n", "9,10,..", "descending", "sparse"])
+        nums = {"1..n": list(range(1, nm + 1)), "9,10,..": list(range(9, 9 + nm)), "descending": list(range(nm, 0, -1)), "sparse": [3, 12, 100][:nm]}[numbering]
+        if numbering != "1..n":
+            feats.add("model-numbers:" + numbering)
+        for k, m in enumerate(nums):
             for a in atoms:
                 b = dict(a)
                 b["model"] = m
-                if m > 1:
-                    b["xs"] = f"{float(a['xs']) + 0.01 * m:.3f}"
+                if k > 0:
+                    b["xs"] = f"{float(a['xs']) + 0.01 * (k + 1):.3f}"
                 allm.append(b)
         atoms = allm
     label_differs = rng.random() < 0.25 and any(a["het"] for a in atoms)
@@ -443,7 +451,7 @@ def run(ctx: Ctx):
                 for r, a in zip(sample, ans[1:]):
                     line = unhexs(a.split(",")[0])
                     rl = real_lines.get(int(r["id"]))
-                    if int(r["pdbx_PDB_model_num"]) == 1 and rl is not None and rl != line.rstrip("\r\n"):
+                    if int(r["pdbx_PDB_model_num"]) == atoms[0]["model"] and rl is not None and rl != line.rstrip("\r\n"):
                         ctx.disagree("cif.atom_site(line)", {"row": r}, line, rl)
         # ---- oracle
         pr = compare(atoms, label_differs)
